@@ -323,18 +323,6 @@ func c12R1(c *Ctx) {
 	c.Ob("C12.R1", "parseVal/kinds", fd.Pos()).Check(len(ks) == 7, "arms cover exactly the seven kinds "+sprint(ks), "arms cover kinds "+sprint(ks)+", expected seven")
 }
 
-func blockPanicsOnly(c *Ctx, body []ast.Stmt) bool {
-	if len(body) != 1 {
-		return false
-	}
-	es, ok := body[0].(*ast.ExprStmt)
-	if !ok {
-		return false
-	}
-	call, ok := es.X.(*ast.CallExpr)
-	return ok && c.isBuiltin(call, "panic")
-}
-
 func caseTypes(c *Ctx, ts *ast.TypeSwitchStmt, pred func(types.Type) bool) []string {
 	var out []string
 	for _, cl := range ts.Body.List {
